@@ -289,10 +289,10 @@ int main(int argc, char **argv) {
 	                   "mul: dest == c*src or refusal without side effects. Non-trivial: k>=2, rows>=2, order not the identity (mad: vec_i != 0)";
 	std::vector<Sub> subs = {
 		{"mad_sweep", body_mad_sweep, 4, 0, sweep_mad, rule},
-		{"mad_direct", body_mad, 12, 10, nullptr, rule},
-		{"update", body_update, 60, 10, nullptr, rule},
-		{"mad_dispatch", body_mad_disp, 10, 2, nullptr, rule},
-		{"mul", body_mul, 8, 4, nullptr, rule},
+		{"mad_direct", body_mad, 22, 10, nullptr, rule},
+		{"update", body_update, 84, 10, nullptr, rule},
+		{"mad_dispatch", body_mad_disp, 16, 2, nullptr, rule},
+		{"mul", body_mul, 10, 4, nullptr, rule},
 	};
 	return pbt_main(argc, argv, "C13", subs);
 }
